@@ -16,6 +16,8 @@ CLAIMED = {
              note="N<=3..4; determinism in the seed on concrete seeds only; torch batches and Sort() on scalar contexts outside"),
  'C15': dict(design='C15', text="SafeLearner.predict/learn driven by a learner double answering consistently in each documented format (bare action, (action,prob), PMF, three dict hints; with/without kwargs; single, row-major, column-major, not-batch-capable) over 8 action kinds, 1-3 actions and batch sizes 1-3: action identity, stated probability, kwargs round-trip to learn and seeded PMF draws (symbolic PMFs, existential inverse-CDF oracle) decided by z3; plus reproducibility of PMF draws from the evaluator seed.",
              note="bare dict actions in batches (ambiguous by design), one-action PMF columns, numpy/torch outside the claim"),
+ 'C11': dict(design='C11', text="Scale.filter and Impute.filter (with Mutable, iqr/percentile and the Environments.scale/impute shortcuts) run on dense, sparse and scalar contexts whose numeric features are exact symbolic reals with missing values at solver-enumerated positions (incl. the first row); min/max/median/iqr/mode fork on z3-decided comparisons; every output feature is compared with an independently written reference over the fitting window in exact arithmetic.",
+             note="N=3, 2 features; fmean->sum/len, stdev->uninterpreted sigma(window) with recorded argument; features with no known value in the window and mode ties outside the claim"),
  'C13': dict(design='C13', text="Row pipelines built from the real HeadRows/EncodeRows/DropRows/LabelRows over list/tuple/LazyDense/dict/LazySparse bases run on symbolic integer cells with affine encoders; symbolic positions and row predicates fork in the solver; every access kind, in forward and reverse order, is compared with an eager list/dict model; plus the real ArffReader's lazy rows over a grid of missing-value placements.",
              note="width<=3 (4 thorough), 2 rows; EncodeCatRows, negative/out-of-range positions outside the claim"),
  'C16': dict(design='C16', text="Random/Fixed/BanditEpsilon/BanditUCB and Misguided wrappers run through solver-enumerated histories (3 rounds, changing action sets incl. unseen and disappearing actions, hashable/int/dense/sparse actions, on-policy and logged learning) with symbolic rewards; ties between value estimates and UCB bounds (sqrt by contract) are decided by z3 so every tie pattern is reached; score() must be a distribution over the offered actions and predict() must return an offered action with exactly its score. Corral: enumerated concrete grid only (its root search is not symbolically encodable).",
